@@ -1,10 +1,11 @@
 #!/bin/bash
-# confirm_seed.sh <PROP> <mK>: confirm a seeded change from /tmp/mut/<PROP>/out/<mK> in a scratch
+# confirm_seed.sh <PROP> <mK> [stored-name]  (MUTROOT=/tmp/mut2 for the second round): confirm a seeded change from /tmp/mut/<PROP>/out/<mK> in a scratch
 # worktree (builds, existing tests pass, demo passes on clean tree and fails with the change),
 # then store it under /verif/seeded/<PROP>-<mK>/.
 set -u
 P=$1; M=$2
-SRC=/tmp/mut/$P/out/$M
+SRC=${MUTROOT:-/tmp/mut}/$P/out/$M
+NAME=${3:-$M}
 export GOFLAGS=-mod=mod GOPROXY=off GOSUMDB=off GOTOOLCHAIN=local
 WT=$(mktemp -d /tmp/seedwt-XXXXXX)
 rmdir $WT
@@ -26,7 +27,7 @@ res "demo with change: exit $CHANGED"
 git -C /repo worktree remove --force $WT
 git -C /repo worktree prune
 if [ $CLEAN -eq 0 ] && [ $BUILD -eq 0 ] && [ $TEST -eq 0 ] && [ $TEST2 -eq 0 ] && [ $CHANGED -ne 0 ]; then
-  D=/verif/seeded/$P-$M
+  D=/verif/seeded/$P-$NAME
   rm -rf $D; mkdir -p $D
   cp $SRC/patch.diff $D/patch.diff
   cp -r $SRC/demo $D/demo
@@ -36,8 +37,8 @@ m=json.load(open(sys.argv[1]))
 m["confirmed_by_me"]=open(sys.argv[3]).read().strip().split("\n")
 json.dump(m,open(sys.argv[2],"w"),indent=1)
 PY
-  echo "CONFIRMED $P-$M"
+  echo "CONFIRMED $P-$NAME"
 else
-  echo "REJECTED $P-$M"
+  echo "REJECTED $P-$NAME"
 fi
 rm -f $LOG
